@@ -216,7 +216,7 @@ def xss_inputs(tier, salt):
     for opener, alpha in vgen.html_constructs():
         for body in vgen.all_strings(alpha, 6 if big else 4):
             items.append(vgen.b(opener) + body)
-    items += list(vgen.all_bytes_in_context(vgen.HTML_BYTE_FRAMES if big else vgen.HTML_BYTE_FRAMES[:8]))
+    items += list(vgen.all_bytes_in_context(vgen.HTML_BYTE_FRAMES))
     items += vgen.long_html_inputs(big)
     return list(vgen.dedup(items))
 
@@ -592,7 +592,9 @@ def c15(tier, sc):
     prose = []
     for nm in names:
         low = [c + 32 if 65 <= c <= 90 else c for c in nm]
-        for pre, post in (("", ""), (" ", " "), ("x ", ">"), ("'", "'"), ('"', ' x"'), ("`", " "), ("x/", "/>"), ("> ", " "), ("x' ", " y"), ("-->", "")):
+        for pre, post in (("", ""), (" ", " "), ("x ", ">"), ("'", "'"), ('"', ' x"'), ("`", " "), ("x/", "/>"), ("> ", " "), ("x' ", " y"), ("-->", ""),
+                          (" ", " /x"), ("", " / y"), ("x' ", "\t/ y"), ("", " 'y'"), ("x\" ", " \"y"), ("", "\n`y`"), ("", "/ /y"), ("x ", " >y"),
+                          ("", ":y"), ("", " javascript:1"), ("x` ", "\x00/ data:1")):
             prose.append(vgen.b(pre) + low + vgen.b(post))
         prose.append(nm + vgen.b(" ") + low)
     inputs += prose
@@ -985,6 +987,9 @@ def units(strs):
 
 SQL_TOKEN_UNITS = ["1", "a ", "'s'", "'", "@v", "+", "-", "or ", "union ", "select ", "(", ")", ",", ";", ".", "{", "}", "\\",
                    "int ", "collate ", "user", "in ", "like ", "not ", "::", "/**/", "--\n", "`` ", "if", "=", "#", "\"", "x_y ", "1.e "]
+# near misses of every attribute the rewrite rules test (same class, different value)
+SQL_TOKEN_UNITS_EXTRA = [":=", "*", "!!", "~", "!", "<=>", "ifnull", "`a` ", "utf8 ", "not in ", "not like ", "user_id", "current_user ",
+                         "into outfile ", "@@v ", "$1 ", "0x1 ", "\\N ", "binary ", "is ", "and ", "group by ", "having ", "sleep"]
 
 
 def sqli_configs(tier):
@@ -1008,6 +1013,7 @@ def sqli_configs(tier):
             ("pass.core3", "pass", core, 3, [""], ALLFLAGS),
             ("pass.core4", "pass", core, 4, [""], [9, 10]),
             ("pass.tok", "pass", SQL_TOKEN_UNITS, 3, [""], [9]),
+            ("pass.tokx", "pass", SQL_TOKEN_UNITS_EXTRA + SQL_TOKEN_UNITS[:14] + ["int ", "::", "collate ", "in ", "like ", "not "], 3, ["", "1 "], [9]),
             ("check.core", "check", core, 4, [""], [9]),
             ("check.tok", "check", SQL_TOKEN_UNITS, 3, [""], [9]),
             ("check.tokq", "check", SQL_TOKEN_UNITS[:16], 3, ["1'", "1\" "], [9]),
@@ -1027,6 +1033,7 @@ def sqli_configs(tier):
         ("pass.core", "pass", core, 5, [""], ALLFLAGS),
         ("pass.tok", "pass", SQL_TOKEN_UNITS, 4, [""], [9]),
         ("pass.tok3", "pass", SQL_TOKEN_UNITS, 3, [""], [17, 10, 18, 12, 20]),
+        ("pass.tokx", "pass", SQL_TOKEN_UNITS_EXTRA + SQL_TOKEN_UNITS, 3, ["", "1 "], [9, 17]),
         ("check.core", "check", core, 5, [""], [9]),
         ("check.tok", "check", SQL_TOKEN_UNITS, 4, [""], [9]),
         ("check.tokq", "check", SQL_TOKEN_UNITS[:16], 4, ["1'", "1\" "], [9]),
@@ -1108,7 +1115,7 @@ def sqli_inputs(tier, salt):
     items += list(vgen.mutations(base, vgen.SIGMA_SQL, r, per_input=30 if big else 3))
     items += list(vgen.walks(vgen.SQL_FRAGMENTS, r, 60000 if big else 5000, 1, 8))
     items += list(vgen.periodic_tails(r, 6000 if big else 600))
-    items += list(vgen.all_bytes_in_context(vgen.SQL_BYTE_FRAMES if big else vgen.SQL_BYTE_FRAMES[:9]))
+    items += list(vgen.all_bytes_in_context(vgen.SQL_BYTE_FRAMES))
     items += list(vgen.literal_bodies(6 if big else 4))
     items += keyword_frames(big)
     items += vgen.long_sql_inputs(big)
